@@ -36,9 +36,9 @@ type Delivery struct {
 
 type Scenario struct {
 	RunSeed    uint64     `json:"run_seed"`
-	Parallel   int        `json:"parallel,omitempty"` // >0: that many signer/verifier pairs work concurrently, each with its own key (Deliveries are ignored)
+	Parallel   int        `json:"parallel,omitempty"`  // >0: that many signer/verifier pairs work concurrently, each with its own key (Deliveries are ignored)
 	Leftovers  bool       `json:"leftovers,omitempty"` // the SIG record handed to Sign is a recycled one: every field Sign is documented to fill in itself still holds something
-	Resign     bool       `json:"resign,omitempty"`   // the signer uses its SIG record a second time (a template kept between messages); the second output is what travels
+	Resign     bool       `json:"resign,omitempty"`    // the signer uses its SIG record a second time (a template kept between messages); the second output is what travels
 	Msg        gen.Recipe `json:"msg"`
 	Key        int        `json:"key"`
 	EpochS     int        `json:"epoch_s"`    // bubble is slept forward by this much first
